@@ -8,7 +8,8 @@ use serde::{Deserialize, Serialize};
 use soroban_sdk::xdr::ScVal;
 use soroban_sdk::{Address, Symbol, Val};
 
-// principals: 0 X, 1 Y, 2 Z, 3 O (initial owner), 4 N (other owner), 5 S (stranger)
+// principals: 0 X, 1 Y, 2 Z, 3 O (initial owner), 4 N (other owner), 5 S (stranger),
+// 6 the all-zero account address (handing the ownership to it renounces it), 7 the operators contract itself
 struct Ctx {
     w: World,
     ops: Address,
@@ -77,8 +78,10 @@ impl Scenario for C17 {
     fn build(&self, _c: usize) -> (Ctx, Model) {
         let w = World::new();
         let env = &w.env;
-        let p: Vec<Address> = (0..6).map(|_| env.register(Principal, ())).collect();
+        let mut p: Vec<Address> = (0..6).map(|_| env.register(Principal, ())).collect();
         let ops = env.register(axelar_operators::AxelarOperators, (p[3].clone(),));
+        p.push(Address::from_string(&soroban_sdk::String::from_str(env, "GAAAAAAAAAAAAAAAAAAAAAAAAAAAAAAAAAAAAAAAAAAAAAAAAAAAAWHF")));
+        p.push(ops.clone());
         let probe = env.register(Probe, ());
         let probe2 = env.register(Probe, ());
         (Ctx { w, ops, probe, probe2, p }, Model { advances: 0, members: [false; 2], owner: 3, count: 0 })
@@ -97,7 +100,7 @@ impl Scenario for C17 {
                 v.push(Act::RemoveOp { acct, by });
             }
         }
-        for (to, by) in [(4usize, 3usize), (3, 4), (4, 4), (5, 5), (3, 3)] {
+        for (to, by) in [(4usize, 3usize), (3, 4), (4, 4), (5, 5), (3, 3), (6, 3), (6, 4), (7, 3), (7, 4)] {
             v.push(Act::TransferOwnership { to, by });
         }
         let mut targets = vec![Target::Add, Target::Boom, Target::Crash, Target::NoSuchFn, Target::WrongArgs];
@@ -112,6 +115,8 @@ impl Scenario for C17 {
                 v.push(Act::Execute { caller, auth: 0, target: *t });
             }
             for auth in 1..7u8 {
+                // nobody can sign for a renounced or self-owned contract's owner
+                if auth == 3 && m.owner >= 6 { continue; }
                 v.push(Act::Execute { caller, auth, target: Target::Add });
                 if auth >= 4 { continue; }
                 if m.count < 2 {
@@ -258,7 +263,7 @@ fn main() {
         let mut o = Opts::new(tier, if tier == "thorough" { 12 } else { 8 });
         o.min_depth = 4;
         o.xcheck = tier == "thorough";
-        o.rule = "all sequences over add/remove operator X, Y by {owner O, other owner N, stranger}, ownership transfers O<->N (and by non-owners, to self), execute by caller X/Y/Z authorised by {itself, a stranger, nobody, the owner, itself but for another forwarded function with the same arguments, itself but for another target contract, itself but for other forwarded arguments} forwarding to a probe contract: echo of 8 values of different types, add(2,3), record(7,tag) (writes + emits, bounded to 2), a target returning an error, a panicking target, a missing function, wrong arity; explored to fixpoint; is_operator for all six accounts, owner() and the probe's delivery count compared after every new state".into();
+        o.rule = "all sequences over add/remove operator X, Y by {owner O, other owner N, stranger}, ownership transfers O<->N (and by non-owners, to self, to the all-zero account = renouncing, to the operators contract itself, and take-over attempts afterwards), execute by caller X/Y/Z authorised by {itself, a stranger, nobody, the owner, itself but for another forwarded function with the same arguments, itself but for another target contract, itself but for other forwarded arguments} forwarding to a probe contract: echo of 8 values of different types, add(2,3), record(7,tag) (writes + emits, bounded to 2), a target returning an error, a panicking target, a missing function, wrong arity; explored to fixpoint; is_operator for all six accounts, owner() and the probe's delivery count compared after every new state".into();
         (C17, o)
     });
 }
